@@ -180,7 +180,10 @@ pub fn layout(spec: &mut ElfSpec, r: &mut Rng) -> Built {
     }
     let mut bytes = vec![0u8; pos];
     // e_ident + header
-    let mut eh = vec![0x7f, b'E', b'L', b'F', if class == 32 { 1 } else { 2 }, if little { 1 } else { 2 }, 1, r.below(4) as u8, r.below(3) as u8, 0, 0, 0, 0, 0, 0, 0];
+    let mut eh = vec![0x7f, b'E', b'L', b'F', if class == 32 { 1 } else { 2 }, if little { 1 } else { 2 }, 1,
+        // EI_OSABI / EI_ABIVERSION: every defined OS ABI (0..18, 64, 97, 255) and arbitrary values - no property mentions them
+        match r.below(4) { 0 => 0, 1 => r.below(19) as u8, 2 => *r.pick(&[6u8, 3, 9, 64, 97, 255]), _ => r.next() as u8 },
+        if r.chance(1, 2) { 0 } else { r.next() as u8 }, 0, 0, 0, 0, 0, 0, 0];
     for (i, l) in ["ei_mag0", "ei_mag1", "ei_mag2", "ei_mag3", "ei_class", "ei_data", "ei_version", "ei_osabi", "ei_abiversion"].iter().enumerate() {
         fields.push((i, 1, l.to_string()));
     }
@@ -293,7 +296,11 @@ pub fn random_elf(r: &mut Rng, rich: bool) -> (ElfSpec, Built) {
         sp.secs[0].flags = *r.pick(&[0u64, 2, 0x800, u64::MAX]);
         sp.secs[0].align = *r.pick(&[0u64, 1, 8, u64::MAX]);
         sp.secs[0].entsize = *r.pick(&[0u64, 1, 24, u64::MAX]);
+        // (its offset and size too, unless the size carries the extended section count: as a link target, shdr[0]
+        //  designates a range like any other header)
+        if !sp.ext_shnum { sp.secs[0].nobits = Some(*r.pick(&[1u64, 7, 16, 64])); sp.secs[0].off = *r.pick(&[0u64, 1, 16, 64]); }
     }
+    let link_to_null = r.chance(1, 6);
     let symsz = if class == 32 { 16 } else { 24 };
     let dynsz = if class == 32 { 8 } else { 16 };
     let mut sym_names: Vec<Vec<u8>> = vec![];
@@ -419,6 +426,8 @@ pub fn random_elf(r: &mut Rng, rich: bool) -> (ElfSpec, Built) {
     if r.chance(1, 3) { sp.secs.push(sec(b".tex", SHT_PROGBITS, r.bytes(2))); }
     if r.chance(1, 3) { sp.secs.push(sec(b".text", SHT_PROGBITS, r.bytes(5))); }
     if r.chance(1, 4) { sp.secs.push(sec(&[b'.', 0xff, 0xfe], SHT_PROGBITS, r.bytes(2))); }
+    // a symbol table whose sh_link is 0 names shdr[0] as its string table (whatever range that header designates)
+    if link_to_null { for s in sp.secs.iter_mut() { if s.ty == SHT_SYMTAB || s.ty == SHT_DYNSYM { s.link = 0; } } }
     // section name string table, at a random position among the sections
     let mut shs = sec(b".shstrtab", SHT_STRTAB, vec![]);
     shs.align = 1;
@@ -501,6 +510,20 @@ pub fn corrupt(b: &mut Built, little: bool, r: &mut Rng) -> Vec<String> {
     let k = r.range(1, 3);
     for _ in 0..k {
         if b.fields.is_empty() { break; }
+        // a quarter of the edits redirect a link: to section 0 (whose own fields may carry extended-numbering values),
+        // to a low index, or past the table
+        if r.chance(1, 4) {
+            let links: Vec<usize> = b.fields.iter().enumerate().filter(|(_, f)| f.2.ends_with(".sh_link") && !f.2.starts_with("sh0.")).map(|(i, _)| i).collect();
+            if !links.is_empty() {
+                let (off, w, label) = b.fields[*r.pick(&links)].clone();
+                let v = *r.pick(&[0u64, 0, 1, 2, 3, 0xff00, 0xffff, 0xffff_ffff]);
+                let mut e = Vec::new();
+                put(&mut e, v, w, little);
+                if off + w <= b.bytes.len() { b.bytes[off..off + w].copy_from_slice(&e); }
+                what.push(format!("{label}={v:#x}"));
+                continue;
+            }
+        }
         let (off, w, label) = b.fields[r.below(b.fields.len() as u64) as usize].clone();
         let len = b.bytes.len() as u64;
         let v = match r.below(4) {
@@ -849,6 +872,32 @@ pub fn stream_family(r: &mut Rng, n: u64, x: &mut Exec, sink: &mut Sink, mode: &
                     let evs2 = sink.run(x, &o);
                     if evs2.first().map(|e| e["res"]["out"] != "ok").unwrap_or(true) { break; }
                     sink.run(x, &json!({"op":"sbulk","n":cnt,"m":m}));
+                    sink.run(x, &json!({"op":"sq","name":"symbol_table"}));
+                    sink.run(x, &json!({"op":"sq","name":"dynamic_symbol_table"}));
+                    sink.run(x, &json!({"op":"sq","name":"symbol_version_table","qs":[["req", w8(1)]]}));
+                }
+            }
+            // histories that put 2^24 / 2^28 / 2^30 bytes into the cache: the object grows a section of a little over
+            // 1 MiB and N ranges of about 1 MiB each are read (N around 16, 256, 1024), then the multi-range accessors
+            if it % 4 == 3 && script.len() > 2 && !corrupt_it {
+                let mut sp2 = sp.clone();
+                let mut sb = sec(b".big", SHT_PROGBITS, vec![0u8; (1usize << 20) + 4096]); sb.align = 1;
+                sp2.secs.push(sb);
+                // the symbol tables name the large section as their string table: the accessor then loads a small range
+                // and a large one, and some N puts the budget's edge between the two
+                let bigidx = (sp2.secs.len() - 1) as u32;
+                for s in sp2.secs.iter_mut() { if s.ty == SHT_SYMTAB || s.ty == SHT_DYNSYM { s.link = bigidx; } }
+                let b2 = layout(&mut sp2, r);
+                let flen2 = b2.bytes.len() as u64;
+                let size0 = (1u64 << 20) - 64;
+                let m2 = flen2.saturating_sub(size0 + 8).max(1);
+                let t = [1024u64, 256, 16][((it / 4) % 3) as usize];
+                sink.run(x, &json!({"op":"session","family":format!("stream-{mode}"),"scenario":"bytes-budget","n":t}));
+                sink.run(x, &sparse_buf_op("file", &b2.bytes));
+                for cnt in (t - 2)..=(t + 3) {
+                    let evs2 = sink.run(x, &json!({"op":"sopen","es":es,"fileslot":"file","reader":{"chunk":"full","seed":1,"faults":[]}}));
+                    if evs2.first().map(|e| e["res"]["out"] != "ok").unwrap_or(true) { break; }
+                    sink.run(x, &json!({"op":"sbulk","n":cnt,"m":m2,"size0":size0}));
                     sink.run(x, &json!({"op":"sq","name":"symbol_table"}));
                     sink.run(x, &json!({"op":"sq","name":"dynamic_symbol_table"}));
                     sink.run(x, &json!({"op":"sq","name":"symbol_version_table","qs":[["req", w8(1)]]}));
